@@ -10,7 +10,7 @@
                 they passed (cvs, dpb, checkflist with output, regress suites
                 with skipped or expected-to-fail tests), in row order
      body       the lines of the log from the tenth-last non-empty line on; the
-                cvs logs for the cvs step; packages.diff for a passing dpb; the
+                cvs logs (those that exist and are not empty) for the cvs step; packages.diff for a passing dpb; the
                 extracted regress blocks (C13's specification) when there are
                 any; the whole log in canvas mode
      sanitized  no NUL or CR byte is printed *)
@@ -142,24 +142,14 @@ Definition spec_cvs_names (m : mode) : list bytes :=
   | _ => []
   end.
 
-Fixpoint readable_prefix (fs : files) (names : list bytes) : list bytes * bool :=
-  match names with
-  | [] => ([], false)
-  | n :: ns =>
-      match f_tmp fs n with
-      | None => ([], true)
-      | Some b => let '(l, e) := readable_prefix fs ns in (b :: l, e)
-      end
-  end.
-
 Definition nonnil {A} (l : list A) : bool := match l with [] => false | _ => true end.
 
-(* the cvs logs that are not empty files, each trimmed, separated by empty
-   lines; reading stops at the first one that cannot be read *)
+(* the cvs logs that were written and are not empty, each trimmed, separated by empty lines; a log that
+   does not exist is like an empty one (robsd-ports without cvs-root writes none, a first checkout only
+   the -up log); never an error *)
 Definition spec_cvs (m : mode) (fs : files) : bytes * bool :=
-  let considered := filter (fun n => match f_tmp fs n with Some [] => false | _ => true end) (spec_cvs_names m) in
-  let '(contents, err) := readable_prefix fs considered in
-  (10 :: join_nl (map spec_format contents) ++ (if err && nonnil contents then [10] else []), err).
+  let contents := flat_map (fun n => match f_tmp fs n with Some (c :: b) => [c :: b] | _ => [] end) (spec_cvs_names m) in
+  (10 :: join_nl (map spec_format contents), false).
 
 Definition spec_generic_body (m : mode) (fs : files) (r : srow) : result bytes :=
   if beq (r_name r) name_cvs then ROk (fst (spec_cvs m fs))
